@@ -1039,3 +1039,82 @@ func dominatedByNonNilTest(b *ssa.BasicBlock) bool {
 	}
 	return false
 }
+
+// checkWorkersDrain: a goroutine that ranges over a channel fed by a producer
+// goroutine must not leave the loop early (return/break) unless the function
+// drains the channel after the join; otherwise the producer blocks on a full
+// channel forever once every worker has left.
+func (c *Ctx) checkWorkersDrain(r *fnRef, rule string) {
+	L := c.L
+	if !r.ok() {
+		return
+	}
+	L.Rule(rule, "in a worker goroutine, the loop `for x := range work` is left only when the channel is closed (no return or break inside it) — or the function drains the channel after the workers have finished (a closing goroutine with `for range work {}` after wg.Wait); otherwise a failing item makes every worker leave while the producer still sends, and the call never returns")
+	F := r.F
+	clos, _ := closuresOf(F)
+	// is there a drain loop after a Wait somewhere (in F or a goroutine of F)?
+	drained := false
+	for _, g := range withAnons(F) {
+		var wait ssa.Instruction
+		allInstrs(g, func(in ssa.Instruction) {
+			if cc := callOf(in); cc != nil && isSyncMethod(cc, "WaitGroup", "Wait") {
+				wait = in
+			}
+		})
+		if wait == nil {
+			continue
+		}
+		for _, lp := range chanRangeLoops(g) {
+			// empty-bodied range loop dominated by the Wait
+			if instrDominates(wait, lp.Head.Instrs[0]) && len(lp.Blocks) <= 2 {
+				drained = true
+			}
+		}
+	}
+	n := 0
+	for _, ci := range clos {
+		if ci.via == nil {
+			continue
+		}
+		for _, lp := range chanRangeLoops(ci.fn) {
+			if len(lp.Blocks) <= 2 {
+				continue // a drain loop itself
+			}
+			n++
+			early := ""
+			for b := range lp.Blocks {
+				for _, s := range b.Succs {
+					if lp.Blocks[s] {
+						continue
+					}
+					if b == lp.Head {
+						continue // normal exit: channel closed
+					}
+					early = c.P.Pos(b.Instrs[len(b.Instrs)-1].Pos())
+					if early == "-" {
+						early = "block " + b.Comment
+					}
+				}
+				if _, isRet := b.Instrs[len(b.Instrs)-1].(*ssa.Return); isRet {
+					early = c.P.Pos(b.Instrs[len(b.Instrs)-1].Pos())
+					if early == "-" {
+						early = "a return in block " + b.Comment
+					}
+				}
+			}
+			name := "worker loop in " + c.P.FuncName(ci.fn)
+			pos := c.P.Pos(lp.Head.Instrs[0].Pos())
+			switch {
+			case early == "":
+				L.OK(rule, r.label, name, pos, "the loop is left only when the channel is closed")
+			case drained:
+				L.OK(rule, r.label, name, pos, "the loop can be left early ("+early+") but the channel is drained after the workers have finished")
+			default:
+				L.Bad(rule, r.label, name, pos, "a worker can leave its receive loop early ("+early+") and nothing drains the channel: when all workers have left, the producer blocks on the full channel and the call never returns")
+			}
+		}
+	}
+	if n == 0 {
+		L.Unknown(rule, r.label, "worker loops", c.P.Pos(F.Pos()), "no worker goroutine ranging over a channel found")
+	}
+}
